@@ -89,6 +89,8 @@ Section DFT1.
   Proof. rewrite (Nat.div_mod m n) at 1 by lia. rewrite fpow_add, fpow_mul, w'_n, fpow_1. ring. Qed.
   Lemma w_w' m : fpow w m * fpow w' m = 1.
   Proof. rewrite <- fpow_mul_base, w_inv. apply fpow_1. Qed.
+  Lemma fmul_comm_w j k : fpow w' (j * k) * fpow w (j * k) = fpow w (j * k) * fpow w' (j * k).
+  Proof. ring. Qed.
 
   (* orthogonality of the characters *)
   Theorem orthogonality m : bsum n (fun j => fpow w (j * m)) = if (m mod n =? 0)%nat then fz (Z.of_nat n) else 0.
@@ -206,6 +208,41 @@ Section DFT1.
   Proof.
     intros Hm H2 Hk. rewrite dft_add, !dft_single_mode by lia.
     destruct (Nat.eqb_spec k m), (Nat.eqb_spec k (n - m)); try lia; ring.
+  Qed.
+
+  (* the transform of a trigonometric polynomial sum_m a_m e^{+2 pi i m j / n} is n * a: dft . (n idft) = n id *)
+  Theorem dft_of_trig_poly (a : nat -> F) k : (k < n)%nat ->
+    dft n w (fun j => bsum n (fun m => a m * fpow w' (j * m))) k = fz (Z.of_nat n) * a k.
+  Proof.
+    intros Hk. unfold dft.
+    rewrite (bsum_ext n _ (fun j => bsum n (fun m => a m * (fpow w' (j * m) * fpow w (j * k))))).
+    2:{ intros j Hj. rewrite <- bsum_scal_r. apply bsum_ext. intros; ring. }
+    rewrite bsum_swap.
+    rewrite (bsum_ext n _ (fun m => a m * bsum n (fun j => fpow w' (j * m) * fpow w (j * k)))).
+    2:{ intros m Hm. rewrite bsum_scal. reflexivity. }
+    rewrite (bsum_single n k).
+    - rewrite (bsum_ext n _ (fun _ => 1)) by (intros j Hj; rewrite (fmul_comm_w j k); apply w_w'). rewrite bsum_const. ring.
+    - exact Hk.
+    - intros m Hm Hne.
+      rewrite (bsum_ext n _ (fun j => fpow w (j * (k + n - m)))).
+      2:{ intros j Hj. apply (fmul_cancel_l F (fpow w (j * m))).
+          - apply fpow_neq0. intro H. apply (f_1_neq_0 F). rewrite <- w_inv, H. ring.
+          - transitivity (fpow w (j * k) * (fpow w (j * m) * fpow w' (j * m))); [ring|]. rewrite w_w'.
+            rewrite <- fpow_add. replace (j * m + j * (k + n - m))%nat with (j * k + n * j)%nat by nia.
+            rewrite fpow_add, (fpow_mul F w n j), w_n, fpow_1. ring. }
+      rewrite orthogonality.
+      destruct (Nat.eqb_spec ((k + n - m) mod n) 0) as [E|E]; [|ring].
+      exfalso. apply Hne. apply Nat.div_exact in E; [|lia].
+      destruct ((k + n - m) / n)%nat as [|[|q]] eqn:Q; nia.
+  Qed.
+
+  (* trigonometric interpolation is exact: reading the coefficients off the transform and re-summing against ANY character table chi
+     (chi m = e^{2 pi i m x / L} at an arbitrary query point x) returns the polynomial's value sum_m a_m chi m *)
+  Theorem interpolation_exact (a chi : nat -> F) :
+    bsum n (fun k => dft n w (fun j => bsum n (fun m => a m * fpow w' (j * m))) k / fz (Z.of_nat n) * chi k)
+    = bsum n (fun m => a m * chi m).
+  Proof.
+    apply bsum_ext. intros k Hk. rewrite dft_of_trig_poly by exact Hk. field. apply n_nz.
   Qed.
 
   (* dft depends on the index only modulo n *)
